@@ -101,6 +101,9 @@ var tokTemplates = []tokTemplate{
 	tpl("valuedescriptions", "", `VAL_ !1 S 1 "a" 0 "b" ;`),
 	tpl("valuedescriptions", "", `VAL_ E 1 "a" ;`),
 	tpl("unknown", "", `FOO_ 1 a : ;`),
+	// identifiers spelled like the attribute names of the templates above (see emitByteSweep: names met in
+	// both roles - as a never validated attribute name and as a validated identifier - by different parses)
+	tpl("nodes", "", `BU_ : a nodef`),
 	// string literals inside unknown lines (discardLine reads tokens, not strings): plain, with one and with
 	// two escaped quotes, with apostrophes / a backslash / UTF-8; variant 1 puts a definition on the next line
 	tpl("unknown", "", `FOO_ 1 "a" : ;`),
@@ -388,6 +391,20 @@ func emitByteSweep(seed int64, n int, all bool, stride int) int {
 					firstID[tp.kind], mand[k] = true, true
 				}
 			}
+		}
+	}
+	// an identifier that is spelled like a quoted attribute name of the templates is swept in full as well:
+	// the same (invalid) spellings are then parsed as attribute names (accepted) and as identifiers (rejected)
+	attrNames := map[string]bool{}
+	for k, c := range class {
+		if c == "strid" {
+			t := clean[k.ti][k.j]
+			attrNames[t[1:len(t)-1]] = true
+		}
+	}
+	for k, c := range class {
+		if c == "ident" && k.j > 0 && attrNames[clean[k.ti][k.j]] {
+			mand[k] = true
 		}
 	}
 	for kind, k := range firstKw { // a kind without an identifier after its keyword: the keyword itself
